@@ -140,6 +140,30 @@ class _SpecRaggedMixin:
         flat.spec = self
         return flat
 
+    def nonzero(self):
+        """contract of RaggedArray.nonzero (proved: RaggedArray.nonzero/contract.*): coordinates of the truthy cells in flat order"""
+        from .structural import contract_ragged_nonzero
+        c = cur()
+        sh, cell, kind = self._shape, self.cell, self.kind
+        M = lambda j: coerce_term(cell(sh.rowof(j), j - sh.S(sh.rowof(j))), "bool")
+        cnt = z3.Int(fresh_name("nzcnt"))
+        pos = z3.Function(fresh_name("nzpos"), z3.IntSort(), z3.IntSort())
+        rk = z3.Function(fresh_name("nzrk"), z3.IntSort(), z3.IntSort())
+        rows = SymArr.symbolic("nzrows", cnt, "int", np.int64, assume_len=False)
+        cols = SymArr.symbolic("nzcols", cnt, "int", np.int64, assume_len=False)
+
+        class G:
+            pass
+        g = G()
+        g.n, g.S, g.L = sh.n, sh.S, sh.L
+        ground, schemas = contract_ragged_nonzero(g, M, rows.fn, cols.fn, cnt, pos, rk)
+        for f in ground:
+            c.assume(f)
+        for nm, fn, ar in schemas:
+            c.assume_forall(nm, fn, arity=ar)
+        c.ghost.setdefault("spec_nonzeros", []).append({"M": M, "cnt": cnt, "pos": pos, "rk": rk, "rows": rows, "cols": cols, "spec": self})
+        return rows, cols
+
     def astype(self, dtype):
         return SpecRagged(self._shape, self.cell, self.kind, dtype, self.name)
 
@@ -163,6 +187,23 @@ class _SpecRaggedMixin:
         if not isinstance(idx, tuple):
             raise Unsupported(f"SpecRagged row selection {type(idx).__name__}")
         idx = tuple(i for i in idx)
+        if len(idx) == 2 and all(isinstance(e, (SymArr, np.ndarray)) and getattr(e, "ndim", 0) == 1 for e in idx):
+            idx = tuple(e if isinstance(e, SymArr) else as_operand(e)[1] for e in idx)
+        if len(idx) == 2 and isinstance(idx[0], SymArr) and isinstance(idx[1], SymArr) and idx[0].kind == "int" and idx[1].kind == "int":
+            # x[rows, cols] with two index vectors: the cells (rows[t], cols[t]) (contract of _get_element); every pair must name an existing cell
+            ra_, ca_ = idx
+            c = cur()
+            sh, cell = self._shape, self.cell
+            hook = c.ghost.get("before_pair_gather")
+            if hook is not None:
+                hook(c)                      # the caller's proof script may state lemmas (as obligations of their own) needed for the precondition
+            t0 = z3.Int(fresh_name("pre_t"))
+            rs, cs = ra_.snapshot(), ca_.snapshot()
+            k = dim_term(ra_.shape_[0])
+            c.prove("pre(x[rows, cols]): as many columns as rows, every pair names an existing cell",
+                    z3.And(dim_term(ca_.shape_[0]) == k, z3.Implies(z3.And(0 <= t0, t0 < k), z3.And(0 <= rs(t0), rs(t0) < sh.n, 0 <= cs(t0), cs(t0) < sh.L(rs(t0))))),
+                    kind="pre", pool=[t0] + list(cur().ghost.get("pool_for_pair_gather", lambda t_: [])(t0)))
+            return SymArr.fresh((k,), lambda t: cell(rs(t), cs(t)), self.kind, self._dtype)
         if len(idx) == 2 and (idx[0] is Ellipsis or (isinstance(idx[0], slice) and idx[0] == slice(None))):
             col = idx[1]
         elif len(idx) == 2 and idx[1] is Ellipsis:
@@ -190,7 +231,21 @@ class _SpecRaggedMixin:
         from ..sym.theory import fold_fn, identity_term
         name = ufunc.__name__
         if ufunc.identity is None:
-            raise Unsupported("SpecRagged row reduction with a ufunc without identity")
+            if name not in ("maximum", "minimum") or self.kind != "int":
+                raise Unsupported("SpecRagged row reduction with a ufunc without identity (other than max / min of integers)")
+            # max / min of every (non-empty: call-site obligation) row, witness form: an upper (lower) bound of the row that is attained
+            sh, cell = self._shape, self.cell
+            c = cur()
+            r0 = z3.Int(fresh_name("pre_r"))
+            c.prove(f"pre({name}.reduce along the rows): every row is non-empty", z3.Implies(z3.And(0 <= r0, r0 < sh.n), sh.L(r0) >= 1), kind="pre", pool=[r0])
+            ext = z3.Function(fresh_name("rowext"), z3.IntSort(), z3.IntSort())
+            at = z3.Function(fresh_name("rowext_at"), z3.IntSort(), z3.IntSort())
+            cmp_ = (lambda a_, b_: a_ <= b_) if name == "maximum" else (lambda a_, b_: a_ >= b_)
+            c.assume_forall(name + ".rows.bound", lambda r, k: z3.Implies(z3.And(0 <= r, r < sh.n, 0 <= k, k < sh.L(r)), cmp_(cell(r, k), ext(r))), arity=2)
+            c.assume_forall(name + ".rows.attained", lambda r: z3.Implies(z3.And(0 <= r, r < sh.n), z3.And(0 <= at(r), at(r) < sh.L(r), cell(r, at(r)) == ext(r))))
+            res = SymArr.fresh((sh.n,), lambda r: ext(r), "int", self._dtype)
+            cur().ghost.setdefault("spec_extrema", []).append({"ext": ext, "at": at, "spec": self, "name": name})
+            return res[:, None] if keepdims else res
         sh = self._shape
         flat = self.ravel()
         fold = fold_fn(name, flat)
@@ -254,7 +309,9 @@ class _SpecRaggedMixin:
             else:
                 raise Unsupported(f"SpecRagged {name} with dtype {dtype}")
             return SpecRagged(self._shape, lambda r, c_: val, kind, dtype, f"{name}({self.name})")
-        if name in ("sum", "any", "all", "max", "min", "prod"):
+        if name == "nonzero" and args and args[0] is self:
+            return self.nonzero()
+        if name in ("sum", "any", "all", "max", "min", "prod", "amax", "amin"):
             # np.<reduction>(x, axis=-1): the real dispatch (RaggedArray.__array_function__ -> x.<name>(...) -> reduction wrapper -> ufunc.reduce),
             # which ends in __array_ufunc__(..., "reduce") above
             return _ragged_base().__array_function__(self, func, types, args, kwargs)
